@@ -31,34 +31,66 @@ def mkspec(W, seed):
     return l1.Spec(B=3 if W < 3 else 4, workers=W, seed=seed, real_store=True, alphabet="min")
 
 
-def run_one(spec, n_events, max_restarts, ch, wd):
+def run_one(spec, n_events, max_restarts, ch, wd, budget=True):
     """One history: returns list of issued-job records with job identities."""
     run = l1.L1Run(spec, ch, wd, [])
     run.start()
     marks = []  # (index in run.issued where a restart batch begins, lost jobs)
     for k in range(n_events):
         if run.restarts < max_restarts:
-            if ch.choose(2, "restart") == 1:
+            r = ch.choose(3 if budget else 2, "restart")
+            if r:
                 lost = [(tuple(md["ens_nums"]), tuple(md["pnum_old"])) for md in run.inflight]
                 n0 = len(run.issued)
-                run.restart()
-                marks.append((n0, lost))
+                if r == 1:
+                    marks.append((n0, lost, recorded_jobs(run)))
+                    run.restart()
+                else:
+                    # the user restarts with a budget of one more step (recorded jobs beyond it are not
+                    # resumed), lets that run finish, then extends the run
+                    marks.append((n0, lost, recorded_jobs(run)))
+                    run.restart(steps=run.state.cstep + 1)
+                    while run.event():
+                        pass
+                    lost = [(tuple(md["ens_nums"]), tuple(md["pnum_old"])) for md in run.inflight]
+                    n0 = len(run.issued)
+                    marks.append((n0, lost, recorded_jobs(run)))
+                    run.restart(steps=10**6)
         run.event()
     return run, marks
 
 
+def recorded_jobs(run):
+    """The in-flight jobs the restart file on disk knows about: [(ens, path numbers)]."""
+    import tomli
+
+    p = os.path.join(run.dir, "restart.toml")
+    if not os.path.isfile(p):
+        return []
+    with open(p, "rb") as f:
+        cur = tomli.load(f)["current"]
+    off = run.state._offset
+    return [(tuple(int(e) - off for e in l[0]), tuple(int(x) for x in l[1])) for l in cur.get("locked", [])]
+
+
 def assign_ordinals(issued, marks):
-    """Job identity: a job lost in a restart and its re-issue (same ensembles and
-    paths, issued in the restart batch) are one job."""
+    """Job identity.  A job lost in a kill and its re-issue (same ensembles and paths, issued in the
+    restart batch) are one job.  A lost job that the restart file records keeps its ordinal even if it
+    is never resumed.  A lost job the restart file does not know (drawn after the last write) has left
+    no trace: as far as the run on disk is concerned it never existed, and its ordinal is free again."""
     ordinals = []
     nxt = 0
-    known = {}  # (ens, pn) of currently in-flight/lost jobs -> ordinal
-    mark_at = {m[0]: m[1] for m in marks}
+    mark_at = {m[0]: m for m in marks}
     lost_map = {}
     inflight = {}
     for idx, rec in enumerate(issued):
         if idx in mark_at:
-            lost_map = {k: inflight.get(k) for k in mark_at[idx]}
+            _, lost, recorded = mark_at[idx]
+            lost_map = {k: inflight.get(k) for k in lost}
+            forgotten = [o for k, o in lost_map.items() if o is not None and k not in recorded]
+            if forgotten:
+                nxt = min(nxt, min(forgotten))
+            lost_map = {k: o for k, o in lost_map.items() if k in recorded}
             inflight = {}
         key = (rec["ens"], rec["pn"])
         if key in lost_map and lost_map[key] is not None:
@@ -195,7 +227,7 @@ def run(ctx):
     ctx.sample(dict(W=2, seed=1, depth=depth, example="complete=[1,0,..], restart after event 2, outcome REJ"))
     ctx.exhaustive = False
     ctx.caps.append(f"job/pick outcomes explored up to {max_dev} deviation(s) from the default; completion orders and restarts exhaustive")
-    ctx.assume("a job lost in a restart and its re-issue (same ensembles and paths) count as one job")
+    ctx.assume("a job lost in a kill and its re-issue (same ensembles and paths) count as one job; a job drawn after the last restart-file write and lost in the kill has left no trace on disk and does not count as a job")
     try:
         from checks import c07_engines
     except ImportError:
